@@ -412,3 +412,16 @@ Inductive bad_string : expr -> Prop :=
 | B_sub_s : forall v v' s, unstrung v v' -> is_literal_head v' = false -> bad_string s -> bad_string (ESub v s)
 | B_node : forall t ks, Exists bad_string ks -> bad_string (ENode t ks)
 | B_list : forall l, Exists bad_string l -> bad_string (EList l).
+
+(* partly e e' : e' is e with SOME of its string constants replaced (each completely, by what `unstrung` gives
+   for it), never inside the slice of a Literal[...] subscript. What is displayed for an annotation that
+   cannot be unstrung completely must at least be this. *)
+Inductive partly : expr -> expr -> Prop :=
+| P_keep : forall e, partly e e
+| P_full : forall e e', unstrung e e' -> partly e e'
+| P_sub : forall v v' s s', partly v v' -> partly s s' ->
+                            (forall v2, unstrung v v2 -> is_literal_head v2 = true -> s' = s) ->
+                            partly (ESub v s) (ESub v' s')
+| P_attr : forall v v' a, partly v v' -> partly (EAttr v a) (EAttr v' a)
+| P_node : forall t ks ks', Forall2 partly ks ks' -> partly (ENode t ks) (ENode t ks')
+| P_list : forall l l', Forall2 partly l l' -> partly (EList l) (EList l').
